@@ -1,4 +1,5 @@
 import Rp2.Proofs.Flows
+import Rp2.Proofs.HolderTotals
 import Rp2.Proofs.BalanceColumns
 /-! # C07 — account balances equal the flows of each account and reconcile with unsold lots -/
 namespace Rp2.C07
@@ -28,4 +29,12 @@ theorem model_accounts_once (allowNeg : Bool) (to : Option Int) (ins : List InTx
 /-- non-vacuity / sanity: buy 5 on account 0, move 2 (1.5 arrive) to account 1, sell 1 from account 1 -/
 example : balAfter (fun _ => 0) [.acq 0 50, .move 0 1 20 15, .out 1 10] 0 = 30 ∧
           balAfter (fun _ => 0) [.acq 0 50, .move 0 1 20 15, .out 1 10] 1 = 5 := by decide
+/-- **per-holder totals on the full-report model** (the "Total <holder>" rows of the Account Balances table): exactly the holders that have a
+    balance row, each once; a holder's total is the decimal sum of the final balances of that holder's accounts, in balance-row order —
+    whether or not those accounts are adjacent in the table -/
+theorem model_holder_totals (holderOf : Nat → String) (bals : List BalRow) :
+    ((holderTotals holderOf bals).map (·.1)).Nodup ∧
+    (∀ h, h ∈ (holderTotals holderOf bals).map (·.1) ↔ ∃ b ∈ bals, holderOf b.acct = h) ∧
+    (∀ h, (∃ b ∈ bals, holderOf b.acct = h) → ∃ v, (h, v) ∈ holderTotals holderOf bals ∧
+      v = (bals.filter (fun b => holderOf b.acct == h)).foldl (fun s b => dadd s (ofUnits b.fin)) 0) := holderTotals_spec holderOf bals
 end Rp2.C07
